@@ -195,6 +195,9 @@ func checkC07(c *Ctx) {
 		c.transferForms(fi, "tree.Tree.AddBipartition", false)
 	}
 	c.checkPair("PAIR", map[string]bool{"RemoveEdges": true, "resolveRecur": true, "AddBipartition": true})
+	c.Decides("RESOLVE-GUARD: resolveRecur creates a node per round exactly while the current node has more than three neighbours")
+	c.resolveGuard("RESOLVE-GUARD")
+	c.Floor("RESOLVE-GUARD", 1)
 	c.Decides("OPTVAR-LOOP: no command overwrites the storage of one of its options, inside its loop over the input trees, with a value computed from the current tree (a threshold capped for one tree would then be used, capped, for every tree after it)")
 	nl, _ := c.optVarLoop("OPTVAR-LOOP", "contracts exactly the branches meeting the criterion")
 	if nl < 100 {
